@@ -24,6 +24,19 @@ PERIODIC = ('H He Li Be B C N O F Ne Na Mg Al Si P S Cl Ar K Ca Sc Ti V Cr Mn Fe
 ONE = [s for s in PERIODIC if len(s) == 1]
 TWO = [s for s in PERIODIC if len(s) == 2]
 
+CAPS = ('Xx', 'XX', 'xx', 'X', 'x')
+
+
+def recase(sym, cap):
+    return {'Xx': sym.capitalize(), 'XX': sym.upper(), 'xx': sym.lower(), 'X': sym.upper(), 'x': sym.lower()}[cap]
+
+
+def caps_of(sym):
+    if len(sym) == 1:
+        return 'X' if sym.isupper() else 'x'
+    return 'Xx' if sym == sym.capitalize() else 'XX' if sym.isupper() else 'xx' if sym.islower() else 'other'
+
+
 COUNT_TYPES = ('int', 'int64', 'int32', 'float', 'float64')
 T_TYPES = ('float', 'int', 'float64', 'int64', 'float32')
 COEF_TYPES = ('ndarray', 'list', 'tuple', 'float32', 'intlist')
@@ -120,6 +133,18 @@ def species_pool(mk):
                 elif zp == 'beyond4':                # zeros first so that real entries sit after the 4th
                     els = [[z[k], 0] for k in range(5 - n)] + els if n < 4 else [[z[0], 0]] + els[:2] + [[z[1], 0]] + els[2:]
                 pool.append(mk.sp(els=els))
+    # --- every capitalisation of a symbol (Xx, XX, xx, X, x) in every position of 1-4 elements,
+    #     with one-, two- and three-digit counts (upper case is the usual Chemkin spelling)
+    for n in (1, 2, 3, 4):
+        for p in range(n):
+            for ci, cap in enumerate(CAPS):
+                for d, cnt in enumerate((1 + (n + p + ci) % 9, 10 + (7 * n + 13 * p + ci) % 90, 100 + (31 * n + 57 * p + ci) % 900)):
+                    els = [[ONE[(5 * n + j + 1) % len(ONE)], 1 + (n + j + d) % 9] for j in range(n)]
+                    base = TWO[(11 * n + 3 * p + ci + d) % len(TWO)] if len(cap) == 2 else \
+                        [q for q in ONE if q not in {e[0] for e in els}][(n + p + d) % 5]
+                    els[p] = [recase(base, cap), cnt]
+                    pool.append(mk.sp(els=els))
+    pool.append(mk.sp(els=[['PT', 1], ['cu', 12], ['x', 3], ['RU', 128]]))
     # --- counts at and next to every boundary, one- and two-letter symbols, every slot
     for k, c in enumerate(COUNT_EDGES):
         pool.append(mk.sp(els=[['H', c]]))
@@ -312,6 +337,13 @@ def classify(cases):
             written = [els[i] for i in pos_idx]
             for slot, e in enumerate(written):
                 hit('symbol_len_%d' % len(e[0]))
+                cp = caps_of(e[0])
+                hit('symbol_caps_' + cp)
+                if cp != 'Xx' and cp != 'X':
+                    hit('symbol_caps_%s_slot%d_of_%d' % (cp, slot + 1, len(written)))
+                    hit('symbol_caps_%s_digits%d' % (cp, len(str(int(e[1])))))
+                if len(e[0]) == 2 and cp != 'Xx':
+                    hit('two_letter_symbol_not_capitalised_Xx')
                 if e[1] in COUNT_EDGES:
                     hit('count_%d' % e[1])
                 hit('count_digits_%d' % len(str(int(e[1]))))
@@ -376,6 +408,9 @@ REQUIRED = (
        'name_bang_inside', 'name_lower', 'name_latin1', 'name_is_number']
     + ['elements_positive_%d' % k for k in (1, 2, 3, 4)] + ['elements_entries_%s' % k for k in (1, 2, 3, 4, '5plus')]
     + ['zero_first', 'zero_middle', 'zero_last', 'positive_after_4th_entry', 'symbol_len_1', 'symbol_len_2']
+    + ['symbol_caps_' + c for c in CAPS] + ['two_letter_symbol_not_capitalised_Xx']
+    + ['symbol_caps_%s_slot%d_of_%d' % (c, k, n) for c in ('XX', 'xx', 'x') for n in (1, 2, 3, 4) for k in range(1, n + 1)]
+    + ['symbol_caps_%s_digits%d' % (c, d) for c in ('XX', 'xx', 'x') for d in (1, 2, 3)]
     + ['count_%d' % c for c in COUNT_EDGES] + ['count_digits_1', 'count_digits_2', 'count_digits_3']
     + ['sym2cnt3_last_of_fewer_than_4', 'sym2cnt3_slot4', 'sym2cnt3_followed']
     + ['count_type_' + t for t in COUNT_TYPES] + ['T_type_' + t for t in T_TYPES] + ['coef_type_' + t for t in COEF_TYPES]
